@@ -134,7 +134,7 @@ def ser_stmts(stmts, ids, out):
 # ----------------------------------------------------------------------------------------------------------
 
 _TOKEN = re.compile(r"""
-    (?P<ws>\s+|//[^\n]*|/\*.*?\*/|\(\*.*?\*\))
+    (?P<ws>\s+|//[^\n]*|/\*.*?\*/|\(\*(?!\)).*?\*\))
   | (?P<lit>\d+'s?d\d+)
   | (?P<num>\d+)
   | (?P<id>[A-Za-z_$][A-Za-z0-9_$]*)
@@ -433,3 +433,488 @@ def used_signals(node, acc=None):
     elif isinstance(node, Replicate):
         used_signals(node.v, acc)
     return acc
+
+
+# ----------------------------------------------------------------------------------------------------------
+# Statements and modules: parser for the emitted text
+# ----------------------------------------------------------------------------------------------------------
+
+class ModuleText:
+    """Result of parsing the text of one generated module."""
+
+    def __init__(self):
+        self.name = None
+        self.decls = {}        # name -> dict(kind, w, s, init_tokens|None)
+        self.order = []        # declaration order
+        self.items = []        # token lists: ["assign", ...] | ["comb", n, ...] | ["sync", clk, n, ...]
+        self.unsupported = []  # descriptions of constructs outside the modelled subset
+
+
+class ModParser(VParser):
+    def __init__(self, toks, name_ids):
+        """name_ids: identifier -> signal id (from the namespace of the real convert run)."""
+        VParser.__init__(self, toks, {})
+        self.name_ids = name_ids
+        self.mt = ModuleText()
+
+    def sign_range(self):
+        signed = False
+        if self.peek() == ("id", "signed"):
+            self.next()
+            signed = True
+        w = 1
+        if self.peek() == ("op", "["):
+            self.next()
+            hi = int(self.next()[1])
+            self.expect(":")
+            lo = int(self.next()[1])
+            self.expect("]")
+            if lo != 0:
+                raise ParseError("range not [n:0]")
+            w = hi + 1
+        return w, signed
+
+    def declare(self, name, kind, w, s, init):
+        if name in self.mt.decls:
+            raise ParseError("duplicate declaration of %s" % name)
+        if name not in self.name_ids:
+            raise ParseError("declared name %s unknown to the namespace" % name)
+        self.mt.decls[name] = dict(kind=kind, w=w, s=s, init=init)
+        self.mt.order.append(name)
+        self.names[name] = (self.name_ids[name], w, s)
+
+    def module(self):
+        self.expect("module")
+        self.mt.name = self.next()[1]
+        self.expect("(")
+        while not self.accept(")"):
+            d = self.next()[1]
+            if d not in ("input", "output", "inout"):
+                raise ParseError("port direction expected, got %r" % d)
+            t = self.next()[1]
+            if t not in ("wire", "reg"):
+                raise ParseError("wire/reg expected")
+            w, s = self.sign_range()
+            name = self.next()[1]
+            kind = {"input": "iw", "inout": "io"}.get(d) or ("ow" if t == "wire" else "or")
+            self.declare(name, kind, w, s, None)
+            self.accept(",")
+        self.expect(";")
+        while True:
+            k, v = self.peek()
+            if k == "eof":
+                raise ParseError("endmodule missing")
+            if v == "endmodule":
+                self.next()
+                break
+            if v in ("wire", "reg"):
+                self.next()
+                w, s = self.sign_range()
+                name = self.next()[1]
+                if self.peek() == ("op", "["):
+                    self.mt.unsupported.append("memory array " + name)
+                    self.skip_to(";")
+                    continue
+                init = None
+                if self.accept("="):
+                    init = []
+                    self.expr(init)
+                self.expect(";")
+                self.declare(name, "w" if v == "wire" else "r", w, s, init)
+            elif v == "assign":
+                self.next()
+                item = ["assign"]
+                self.primary(item)
+                self.expect("=")
+                self.expr(item)
+                self.expect(";")
+                self.mt.items.append(item)
+            elif v == "always":
+                self.next()
+                self.expect("@")
+                self.expect("(")
+                if self.accept("*"):
+                    self.expect(")")
+                    self.expect("begin")
+                    body = []
+                    n = self.stmts(body, ("end",))
+                    self.expect("end")
+                    self.mt.items.append(["comb", str(n)] + body)
+                else:
+                    self.expect("posedge")
+                    clk = self.next()[1]
+                    self.expect(")")
+                    self.expect("begin")
+                    body = []
+                    n = self.stmts(body, ("end",))
+                    self.expect("end")
+                    if clk not in self.names:
+                        raise ParseError("unknown clock %s" % clk)
+                    self.mt.items.append(["sync", str(self.names[clk][0]), str(n)] + body)
+            elif v == "initial":
+                self.mt.unsupported.append("initial block")
+                self.skip_block()
+            else:
+                # instance or anything else
+                self.mt.unsupported.append("item starting with %r" % v)
+                self.skip_to(";")
+        return self.mt
+
+    def skip_to(self, tok):
+        depth = 0
+        while True:
+            k, v = self.next()
+            if k == "eof":
+                raise ParseError("eof while skipping")
+            if v in ("(", "{", "["):
+                depth += 1
+            elif v in (")", "}", "]"):
+                depth -= 1
+            elif v == tok and depth == 0:
+                return
+
+    def skip_block(self):
+        # skip 'initial begin ... end' or a single statement
+        self.next()
+        if self.accept("begin"):
+            depth = 1
+            while depth:
+                k, v = self.next()
+                if k == "eof":
+                    raise ParseError("eof in initial block")
+                if v in ("begin", "case"):
+                    depth += 1
+                elif v in ("end", "endcase"):
+                    depth -= 1
+        else:
+            self.skip_to(";")
+
+    def stmts(self, out, stop):
+        n = 0
+        while self.peek()[1] not in stop:
+            self.stmt(out)
+            n += 1
+        return n
+
+    def stmt(self, out):
+        k, v = self.peek()
+        if v == "if":
+            self.next()
+            self.expect("(")
+            out += ["f"]
+            self.expr(out)
+            self.expect(")")
+            self.expect("begin")
+            body = []
+            n = self.stmts(body, ("end",))
+            self.expect("end")
+            out += [str(n)] + body
+            if self.accept("else"):
+                self.expect("begin")
+                body = []
+                n = self.stmts(body, ("end",))
+                self.expect("end")
+                out += ["1", str(n)] + body
+            else:
+                out += ["0", "0"]
+        elif v == "case":
+            self.next()
+            self.expect("(")
+            out += ["w"]
+            self.expr(out)
+            self.expect(")")
+            items = []
+            cnt = 0
+            dflt = None
+            while not self.accept("endcase"):
+                if self.accept("default"):
+                    self.expect(":")
+                    self.expect("begin")
+                    body = []
+                    n = self.stmts(body, ("end",))
+                    self.expect("end")
+                    if dflt is not None:
+                        raise ParseError("two defaults")
+                    dflt = [str(n)] + body
+                else:
+                    if dflt is not None:
+                        raise ParseError("item after default")
+                    self.expr(items)
+                    self.expect(":")
+                    self.expect("begin")
+                    body = []
+                    n = self.stmts(body, ("end",))
+                    self.expect("end")
+                    items += [str(n)] + body
+                    cnt += 1
+            out += [str(cnt)] + items
+            out += (["1"] + dflt) if dflt is not None else ["0"]
+        elif v == "$display" or v == "$finish":
+            raise Unsupported("system task " + v)
+        else:
+            out += ["a"]
+            self.primary(out)
+            if self.accept("="):
+                raise Unsupported("blocking assignment (variable signal)")
+            self.expect("<=")
+            self.expr(out)
+            self.expect(";")
+
+
+def strip_prolog(text):
+    """Drop everything before 'module' (banner, timescale)."""
+    m = re.search(r"^module\s", text, re.M)
+    if not m:
+        raise ParseError("no module")
+    return text[m.start():]
+
+
+def parse_module(text, name_ids):
+    toks = lex(strip_prolog(text))
+    p = ModParser(toks, name_ids)
+    mt = p.module()
+    return mt
+
+
+# ----------------------------------------------------------------------------------------------------------
+# Running the real convert and capturing the lowered fragment
+# ----------------------------------------------------------------------------------------------------------
+
+class Captured:
+    pass
+
+
+def convert_capture(top, ios, name="top", **kw):
+    """Run the REAL litex.gen.fhdl.verilog.convert and capture the lowered fragment and namespace it printed."""
+    from litex.gen.fhdl import verilog as V
+    cap = Captured()
+    orig = V._generate_module
+
+    def hook(f, ios_, name_, ns, attr_translate):
+        cap.f = f
+        cap.ns = ns
+        cap.ios = set(ios_)
+        return orig(f, ios_, name_, ns, attr_translate)
+    V._generate_module = hook
+    try:
+        r = V.convert(top, ios=set(ios), name=name, **kw)
+    finally:
+        V._generate_module = orig
+    cap.text = r.main_source
+    cap.result = r
+    return cap
+
+
+def module_signals(cap):
+    from migen.fhdl.tools import list_signals, list_special_ios
+    f = cap.f
+    sigs = list_signals(f) | list_special_ios(f, ins=True, outs=True, inouts=True) | cap.ios
+    return sorted(sigs, key=lambda s: s.duid)
+
+
+def ser_module(cap):
+    """Serialise the captured lowered fragment: returns (ids, sections dict)."""
+    from migen.fhdl.tools import group_by_targets
+    f = cap.f
+    ids = SigIds()
+    sigs = module_signals(cap)
+    for s in sigs:
+        ids.get(s)
+    ns = cap.ns
+    sec_sigs = [str(len(sigs))]
+    for s in sigs:
+        if not isinstance(s.reset, Constant):
+            raise Unsupported("non-constant reset")
+        sec_sigs += [str(s.nbits), "1" if s.signed else "0", str(s.reset.value), ns.get_name(s)]
+    groups = group_by_targets(f.comb)
+    sec_comb = [str(len(groups))]
+    for targets, stmts in groups:
+        sec_comb += ["G", str(len(targets))] + [str(ids.get(t)) for t in sorted(targets, key=lambda x: x.duid)]
+        body = []
+        n = ser_stmts(stmts, ids, body)
+        sec_comb += [str(n)] + body
+    sec_sync = [str(len(f.sync))]
+    for cdname, stmts in f.sync.items():
+        clk = f.clock_domains[cdname].clk
+        body = []
+        n = ser_stmts(stmts, ids, body)
+        sec_sync += ["D", cdname, str(ids.get(clk)), str(n)] + body
+    if len(ids) != len(sigs):
+        raise Unsupported("statement refers to a signal outside list_signals")
+    return ids, sigs, groups, dict(sigs=sec_sigs, comb=sec_comb, sync=sec_sync)
+
+
+def ser_vmodule(mt, ids_by_name):
+    items = [str(len(mt.items))]
+    for it in mt.items:
+        items += it
+    decls = [str(len(mt.order))]
+    for name in mt.order:
+        d = mt.decls[name]
+        decls += [str(ids_by_name[name]), d["kind"], str(d["w"]), "1" if d["s"] else "0"]
+        if d["init"] is None:
+            decls += ["0"]
+        else:
+            decls += ["1"] + d["init"]
+    return items, decls
+
+
+class RealLowered:
+    """The real Evaluator driven directly on the lowered fragment that convert printed (same Signal objects
+    as the text), the way harness/netlist.py drives it on an un-lowered module."""
+
+    def __init__(self, cap):
+        from migen.fhdl.tools import list_targets
+        from litex.gen.sim.core import Evaluator
+        f = cap.f
+        self.f = f
+        for s in module_signals(cap):
+            s.variable = False       # flag only affects printing (already done) and an assert in Evaluator.assign
+        self.comb = [s.eq(s.reset) for s in sorted(list_targets(f.comb), key=lambda x: x.duid)] + list(f.comb)
+        self.ev = Evaluator(f.clock_domains, {})
+        self.clk2cd = {id(cd.clk): cd.name for cd in f.clock_domains}
+
+    def settle(self):
+        ev = self.ev
+        ev.execute(self.comb)
+        while ev.commit():
+            ev.execute(self.comb)
+
+    def set(self, sig, value):
+        self.ev.signal_values[sig] = truncate(value, sig.nbits, sig.signed)
+
+    def get(self, sig):
+        return self.ev.eval(sig)
+
+    def tick(self, clk_sigs):
+        ev = self.ev
+        for c in clk_sigs:
+            cd = self.clk2cd.get(id(c))
+            if cd is not None and cd in self.f.sync:
+                ev.execute(self.f.sync[cd])
+        modified = ev.commit()
+        while modified:
+            ev.execute(self.comb)
+            modified = ev.commit()
+
+
+def stmt_sites(stmts, ns, out):
+    """Printed text of every site (assignment rhs / If condition / Case test), in the pre-order the Lean
+    driver numbers them."""
+    from litex.gen.fhdl.expression import _generate_expression as G
+    for s in stmts:
+        if isinstance(s, _Assign):
+            out.append(("assign", G(ns, s.l)[0] + " <= " + G(ns, s.r)[0]))
+        elif isinstance(s, If):
+            out.append(("if", G(ns, s.cond)[0]))
+            stmt_sites(s.t, ns, out)
+            stmt_sites(s.f, ns, out)
+        elif isinstance(s, Case):
+            out.append(("case", G(ns, s.test)[0]))
+            for k, v in s.cases.items():
+                if isinstance(k, Constant):
+                    stmt_sites(v, ns, out)
+            if "default" in s.cases:
+                stmt_sites(s.cases["default"], ns, out)
+        elif isinstance(s, (list, tuple)):
+            stmt_sites(s, ns, out)
+    return out
+
+
+# ----------------------------------------------------------------------------------------------------------
+# Random modules (grammar-generated fragments)
+# ----------------------------------------------------------------------------------------------------------
+
+class StmtGen:
+    def __init__(self, rng, eg):
+        self.rng = rng
+        self.eg = eg
+
+    def target(self, sigs):
+        r = self.rng
+        s = r.choice(sigs)
+        k = r.random()
+        if k < 0.6 or len(sigs) == 0:
+            return s
+        if k < 0.85:
+            n = s.nbits
+            lo = r.randrange(0, n)
+            hi = r.randint(lo + 1, n)
+            return _Slice(s, lo, hi)
+        parts = []
+        for t in r.sample(sigs, k=min(len(sigs), r.randint(2, 3))):
+            if r.random() < 0.5:
+                parts.append(t)
+            else:
+                lo = r.randrange(0, t.nbits)
+                parts.append(_Slice(t, lo, r.randint(lo + 1, t.nbits)))
+        if len(parts) < 2:
+            return s
+        return Cat(*parts)
+
+    def cond(self):
+        r = self.rng
+        e = self.eg.gen(r.randint(0, 2))
+        return e
+
+    def stmts(self, targets, depth, n=None):
+        r = self.rng
+        out = []
+        for _ in range(n if n is not None else r.randint(1, 3)):
+            k = r.random()
+            if depth <= 0 or k < 0.5:
+                out.append(_Assign(self.target(targets), self.eg.gen(r.randint(0, 3))))
+            elif k < 0.8:
+                s = If(self.cond(), *self.stmts(targets, depth - 1))
+                for _ in range(r.randint(0, 2)):
+                    if r.random() < 0.5:
+                        s = s.Elif(self.cond(), *self.stmts(targets, depth - 1))
+                if r.random() < 0.6:
+                    s = s.Else(*self.stmts(targets, depth - 1))
+                out.append(s)
+            else:
+                test = self.eg.gen(r.randint(0, 1))
+                n_t = min(len(test), 4)
+                keys = r.sample(range(0, 1 << n_t), k=min(r.randint(1, 4), 1 << n_t))
+                cases = {}
+                for key in keys:
+                    cases[key] = self.stmts(targets, depth - 1)
+                if r.random() < 0.1 and value_bits_sign(test)[1]:
+                    cases[-1] = self.stmts(targets, depth - 1)
+                if r.random() < 0.6:
+                    cases["default"] = self.stmts(targets, depth - 1)
+                out.append(Case(test, cases))
+        return out
+
+
+def random_module(rng, lowered_exprs=False, maxw=9):
+    """A small synchronous module: inputs, registers (some signed, some with non-zero reset, some reset-less),
+    combinational signals defined in dependency order (acyclic)."""
+    from migen import Module, ClockDomain
+    m = Module()
+    m.clock_domains.cd_sys = ClockDomain("sys")
+    ins = make_sigs(rng, rng.randint(2, 4), maxw=maxw, prefix="i")
+    regs = []
+    for k in range(rng.randint(1, 3)):
+        w = rng.randint(1, maxw)
+        signed = rng.random() < 0.3
+        lo, hi = (-(1 << (w - 1)), (1 << (w - 1)) - 1) if signed else (0, (1 << w) - 1)
+        rst = rng.choice([0, 0, rng.randint(lo, hi)])
+        regs.append(Signal((w, signed), name_override="r%d" % k, reset=rst, reset_less=rng.random() < 0.2))
+    combs = []
+    readable = ins + regs
+    for k in range(rng.randint(1, 3)):
+        w = rng.randint(1, maxw)
+        signed = rng.random() < 0.3
+        lo, hi = (-(1 << (w - 1)), (1 << (w - 1)) - 1) if signed else (0, (1 << w) - 1)
+        c = Signal((w, signed), name_override="c%d" % k, reset=rng.choice([0, 0, rng.randint(lo, hi)]))
+        eg = ExprGen(rng, list(readable), lowered=lowered_exprs)
+        sg = StmtGen(rng, eg)
+        m.comb += sg.stmts([c], rng.randint(0, 2))
+        combs.append(c)
+        readable = readable + [c]
+    eg = ExprGen(rng, list(readable), lowered=lowered_exprs)
+    sg = StmtGen(rng, eg)
+    m.sync += sg.stmts(regs, rng.randint(1, 3))
+    ios = set(ins) | set(regs[:1]) | set(combs[:2]) | {m.cd_sys.clk, m.cd_sys.rst}
+    return m, ios
